@@ -3,8 +3,7 @@ sandbox (DESIGN.md section 5).  NOT_BUILT: a contract was designed (DESIGN.md se
 discharge it is not built (yet) -- listed honestly rather than claimed."""
 
 NOT_APPLICABLE = {
- "C17": "Differential against an external reference disassembler. llvm-mc 14 / objdump are in the sandbox and a prototype (round 4) compared miasm's decoded length with llvm-mc on random x86 byte sequences: 3.7% (32-bit) and 16% (64-bit) of the decodable sequences disagree, in many classes -- conventions of the reference (redundant prefixes counted as separate instructions) mixed with genuine miasm defects (opcodes invalid in 64-bit mode such as AAA, POP ES, LDS are decoded; SAL /6 and ICEBP forms LLVM rejects). Separating the two per class was beyond the session; a check that cannot be made quiet honestly is not registered.",
- "C19": "Differential against a reference emulator that is not present; no machine-readable ISA specification in the sandbox.",
+ "C19": "Differential against a reference CPU emulator for ARM, Thumb, AArch64, MIPS32 and PowerPC: none is present (no qemu, no unicorn in either python, gdb has no simulator target; clang-14 can compile for these targets but nothing can execute the result) and the host only executes x86 (used by C18); there is no machine-readable ISA specification in the sandbox either, so neither a contract nor a bounded differential can be stated. (C20 compares miasm's own back ends on ARM / AArch64 / MIPS32 programs: agreement between them, not with a reference.)",
 }
 
 NOT_BUILT = {
